@@ -256,7 +256,7 @@ def run_noisy(case):
 def subs(tier):
     q = tier == "quick"
     return [
-        Sub("ideal-unitaries", run_ideal, strategy=unitary_case(max_n=8 if q else 10), examples=200 if q else 1500),
-        Sub("ideal-circuits", run_ideal, strategy=circuit_case(), examples=100 if q else 600),
-        Sub("error-models", run_noisy, strategy=noisy_case(), examples=100 if q else 800),
+        Sub("ideal-unitaries", run_ideal, strategy=unitary_case(max_n=8 if q else 10), examples=200 if q else 8000),
+        Sub("ideal-circuits", run_ideal, strategy=circuit_case(), examples=100 if q else 3000),
+        Sub("error-models", run_noisy, strategy=noisy_case(), examples=100 if q else 4000),
     ]
